@@ -25,7 +25,7 @@ import itertools
 from ..absint import Interp, Raised, Record, Unsupported
 from ..astx import atoms, call_name, calls_named, dotted, enclosing_stmt, expand, kwarg, last, stmt_list_of
 from ..cfg import CFG, Node, exprs_in_node
-from ..index import Module, _set_parents, AnchorError, FuncNode, ancestors, enclosing_function, parent, qualname_of, walk_shallow
+from ..index import repo_root, Module, _set_parents, AnchorError, FuncNode, ancestors, enclosing_function, parent, qualname_of, walk_shallow
 from ..report import VERIF
 from ..selftest import Twin
 
@@ -765,14 +765,41 @@ _V = "packages/llama-index-workflows/src/workflows/representation/validate.py"
 _W = "packages/llama-index-workflows/src/workflows/workflow.py"
 _D = "packages/llama-index-workflows/src/workflows/decorators.py"
 
-_HITL_OLD = "        InputRequiredEvent in produced_events or HumanResponseEvent in consumed_events\n"
+
+
+def _hitl_return_text() -> str:
+    """Source text of the statement that returns the HITL flag (last `return` of `_validate_event_connectivity`), read at
+    import time with `ast` so that the twins of that statement follow reformatting instead of being skipped."""
+    try:
+        src = (repo_root() / _V).read_text(encoding="utf-8")
+        tree = ast.parse(src)
+    except (OSError, SyntaxError):
+        return "\0validate.py unreadable"
+    fn = next((n for n in tree.body if isinstance(n, ast.FunctionDef) and n.name == "_validate_event_connectivity"), None)
+    rets = [n for n in ast.walk(fn) if isinstance(n, ast.Return)] if fn is not None else []
+    if not rets:
+        return "\0HITL return not located"
+    r = max(rets, key=lambda n: n.lineno)
+    lines = src.splitlines(keepends=True)
+    return "".join(lines[r.lineno - 1: r.end_lineno])
+
+
+_HITL_RET = _hitl_return_text()
+_HITL_PINNED = "    return (\n        InputRequiredEvent in produced_events or HumanResponseEvent in consumed_events\n    )\n"
 
 TWINS = [
     # R1
-    Twin("repair: HITL flag by subclass", _V, _HITL_OLD,
-         "        any(issubclass(e, InputRequiredEvent) for e in produced_events)\n        or any(issubclass(e, HumanResponseEvent) for e in consumed_events)\n", None),
-    Twin("repair through a constant tuple", _V, "    return (\n" + _HITL_OLD + "    )\n",
+    Twin("revert of the repair: HITL flag by exact-class membership", _V, _HITL_RET, _HITL_PINNED, "C23.R1"),
+    Twin("produced side by exact-class membership", _V, _HITL_RET,
+         "    return InputRequiredEvent in produced_events or any(issubclass(x, HumanResponseEvent) for x in consumed_events)\n", "C23.R1"),
+    Twin("consumed side through a set intersection", _V, _HITL_RET,
+         "    return any(issubclass(x, InputRequiredEvent) for x in produced_events) or bool({HumanResponseEvent} & consumed_events)\n", "C23.R1"),
+    Twin("benign: flag by subclass, generator form over both sets", _V, _HITL_RET,
+         "    return (\n        any(issubclass(e, InputRequiredEvent) for e in produced_events)\n        or any(issubclass(e, HumanResponseEvent) for e in consumed_events)\n    )\n", None),
+    Twin("benign: flag through constant tuples", _V, _HITL_RET,
          "    hitl_out = (InputRequiredEvent,)\n    hitl_in = (HumanResponseEvent,)\n    return any(issubclass(e, hitl_out) for e in produced_events) or any(issubclass(e, hitl_in) for e in consumed_events)\n", None),
+    Twin("benign: flag computed by explicit loops", _V, _HITL_RET,
+         "    for e in produced_events:\n        if issubclass(e, InputRequiredEvent):\n            return True\n    for e in consumed_events:\n        if issubclass(e, HumanResponseEvent):\n            return True\n    return False\n", None),
     Twin("input seeds by identity", _V, "        if issubclass(ev_type, HumanResponseEvent) and ev_type not in seeds:", "        if ev_type is HumanResponseEvent and ev_type not in seeds:", "C23.R1"),
     Twin("output seeds by set membership", _V, "        if issubclass(ev_type, (StopEvent, InputRequiredEvent))\n    ]", "        if ev_type in {StopEvent, InputRequiredEvent}\n    ]", "C23.R1"),
     Twin("stop consumer by equality", _V, "            if issubclass(event_type, StopEvent):\n                steps_accepting_stop_event.append(name)",
@@ -806,9 +833,12 @@ TWINS = [
     Twin("StepFailedEvent no longer a consumable boundary", _V, "            (InputRequiredEvent, HumanResponseEvent, StopEvent, StepFailedEvent),\n", "            (InputRequiredEvent, HumanResponseEvent, StopEvent),\n", "C23.R3"),
     Twin("only the first accepted event is checked for StopEvent", _V, "            if issubclass(event_type, StopEvent):\n                steps_accepting_stop_event.append(name)\n                break\n",
          "            if issubclass(event_type, StopEvent):\n                steps_accepting_stop_event.append(name)\n            break\n", "C23.R3"),
-    Twin("any externally supplied event counts as human input", _V, "    return (\n" + _HITL_OLD + "    )\n",
+    Twin("revert of the repair is also seen as a concrete graph", _V, _HITL_RET, _HITL_PINNED, "C23.R3"),
+    Twin("any externally supplied event counts as human input", _V, _HITL_RET,
          "    return bool(consumed_events - produced_events) or any(issubclass(e, InputRequiredEvent) for e in produced_events)\n", "C23.R3"),
-    Twin("partial repair: produced side only (the consumed-side finding stays, nothing new)", _V, "    return (\n" + _HITL_OLD + "    )\n", "    return any(issubclass(e, InputRequiredEvent) for e in produced_events)\n", None),
+    Twin("flag only looks at produced events", _V, _HITL_RET, "    return any(issubclass(e, InputRequiredEvent) for e in produced_events)\n", "C23.R3"),
+    Twin("flag swaps the two sets", _V, _HITL_RET,
+         "    return any(issubclass(x, InputRequiredEvent) for x in consumed_events) or any(issubclass(x, HumanResponseEvent) for x in produced_events)\n", "C23.R3"),
     Twin("two wildcard handlers allowed", _V, "    if len(wildcard_handlers) > 1:", "    if len(wildcard_handlers) > 2:", "C23.R3"),
     Twin("double claim check dropped for the first handler", _V, "            if target in claim_owner:\n", "            if target in claim_owner and claim_owner[target] != \"h1\":\n", "C23.R3"),
     Twin("benign: count via != 1", _V, "    num_found = len(stop_events_found)\n    if num_found == 0:", "    num_found = len(stop_events_found)\n    if not stop_events_found:", None),
